@@ -3,7 +3,7 @@ the evidence files."""
 import importlib
 import os
 
-RULE_MODULES = ["r_threads", "r_work", "r_fs"]
+RULE_MODULES = ["r_threads", "r_work", "r_fs", "r_sort", "r_ident", "r_codec", "r_stale", "r_panics"]
 
 
 def load_rule_modules():
@@ -13,11 +13,11 @@ def load_rule_modules():
 
 PROPS = {
     "C01": {
-        "rules": ["C01.R1", "C01.R2", "C01.R3", "C01.R4", "C01.R5", "C01.R6", "C01.R9", "C03.R5", "C07.R4", "C20.R2", "C18.R1"],
+        "rules": ["C01.R1", "C01.R2", "C01.R3", "C01.R4", "C01.R5", "C01.R6", "C01.R9", "C03.R5", "C07.R4", "C20.R2", "C18.R1", "C18.R2", "C13.R1", "C13.R2", "C13.R3"],
         "explanation": "Decides the integrity of the up-to-date decision (each rule a necessary condition of C01): history looked up and recorded under this rule's sources hash; sources hash covers every upstream hash in receiver order; remembered vector index-aligned with the targets; AlreadyCorrect only under a full Ticket equality with the current hash of the same file; command skipped only when no target needs rebuilding; what is recorded is what was read from disk after a successful command; producer/consumer sub-index agreement; a status of Recovered only where a restore happened; the mtime shortcut is exact. Not decided: byte equality with a from-scratch build over arbitrary histories (runtime state).",
     },
     "C02": {
-        "rules": ["C02.R1", "C02.R2", "C02.R3", "C02.R4", "C02.R6", "C01.R2"],
+        "rules": ["C02.R1", "C02.R2", "C02.R3", "C02.R4", "C02.R6", "C01.R2", "C13.R3", "C12.R3"],
         "explanation": "Decides: at most one command execution per rule per build (no call site of the chain on a cycle or twice on a path); the Up-to-date path reaches no mutating System method; the command runs only on the true edge of needs-rebuild; NeedsRebuild only after the cache (and download) said NotThere; what was learned is persisted (history returned and written). Not decided: that a lookup hits on a given history.",
     },
     "C03": {
@@ -29,7 +29,7 @@ PROPS = {
         "explanation": "Decides: exit status is tested (code == Some(0)) before an output is accepted; nothing is recorded for a failed execution (history written only under Ok(Ok(_)) of join, error types carry no history); cancel is forwarded on every failing path; a Cancel packet stops the dependent; one error per failed thread, none for cancelled ones; errors carry the failing path. Not decided: content correctness of independent rules (C01).",
     },
     "C05": {
-        "rules": ["C05.R1", "C03.R2", "C05.R3", "C04.R3"],
+        "rules": ["C05.R1", "C03.R2", "C05.R3", "C04.R3", "C05.R5"],
         "explanation": "Decides the channel protocol that makes build/clean terminate: exactly one packet per edge per return path, receivers drained completely, all spawns before any join and every handle joined. Not decided: acyclicity of the runtime wait-for graph (sorter output).",
     },
     "C06": {
@@ -53,19 +53,43 @@ PROPS = {
         "explanation": "Decides: clean backs up every existing target of every node (complete loops, no skipping path, errors returned); a missing target with a remembered hash is restored by rename from the entry named by that hash; downloaded files get their remembered permission; clean honours its goal. Not decided: end-to-end behaviour on a real file system.",
     },
     "C11": {
-        "rules": ["C11.R1", "C11.R2", "C11.R4", "C04.R2"],
+        "rules": ["C11.R1", "C11.R2", "C11.R4", "C04.R2", "C16.R2"],
         "explanation": "Decides: user data moves only by single renames (no open+create copy); history written only after a successful join, the file-state table only after all joins; state files read back by a strict decoder must be replaced atomically (temp + rename). Not decided: the disk state at each individual crash point (fault enumeration).",
+    },
+    "C12": {
+        "rules": ["C12.R1", "C12.R2", "C12.R3", "C12.R4", "C12.R5", "C12.R6"],
+        "explanation": "Decides: duplicate targets are detected for every target of every rule; the goal-restricted sort starts only at an existing goal; rules / targets / sources are sorted before numbering and no hash-order iteration reaches the plan; every source is bound to (final index of the producing rule, position among its targets) or to its leaf entry; both cyclic verdicts exist and are guarded; the cycle verdict is issued only against open (visited, on-stack) frames. Not decided: that the DFS visits exactly the ancestors, once, in dependency order (algorithmic).",
+    },
+    "C13": {
+        "rules": ["C13.R1", "C13.R2", "C13.R3", "C13.R4", "C07.R2"],
+        "explanation": "Injectivity of the hashed serialisation as a chain of structural facts (modulo SHA-256): all three fields reach the hash completely and in order; every element is followed by a newline and every section by a delimiter line ':' while the parser never stores a line that is empty or ':' and splits on newline; targets and sources are sorted (or checked sorted), the command is not; the identity names the history file and is the hash of the very strings the node carries. Not decided: nothing of the statement beyond hash collisions; end-to-end use of the identity is C01.",
+    },
+    "C14": {
+        "rules": ["C14.R1", "C14.R2", "C14.R3", "C14.R4", "C14.R5"],
+        "explanation": "Decides: the parser's panic obligations (bounds checks guarded by length tests, counters); every state-machine error carries the file name and a line counter that starts at 1 and advances exactly once per line; the transition table read back from the code equals the documented one (4 modes x {empty, ':', other} and the end-of-input verdicts); bundle nodes are merged through a BTreeMap (canonical order, duplicates merged, kind clash rejected); the bundle layer's rejections exist and are guarded. Not decided: equality of the accepted language / yielded strings with the grammar for all texts.",
+    },
+    "C15": {
+        "rules": ["C15.R1", "C15.R2", "C15.R3", "C15.R4", "C15.R5"],
+        "explanation": "Decides: the chunk loop feeds the SHA-256 digest exactly buffer[..n] of each read and returns only at end of file; the directory hash covers the listing and every entry's own hash; encoder alphabet and decoder table are mutual inverses over exactly the 62 alphanumerics with consistent base, padding, endianness and length; the decoder rejects wrong length, foreign characters and values over 32 bytes; the codec's panic obligations. Not decided: correctness of rust-crypto / num-bigint; equality with an independent SHA-256 (runtime comparison).",
+    },
+    "C16": {
+        "rules": ["C16.R1", "C16.R2", "C16.R3"],
+        "explanation": "Decides: writer and reader of each state file instantiate bincode with the same type through the default entry points; a decode error is an error all the way up to the entry points (never a default value); no panic-capable local site is reachable from the state readers. Not decided: bincode's behaviour on arbitrary, truncated or bit-flipped bytes (dependency semantics).",
     },
     "C17": {
         "rules": ["C17.R1", "C17.R2", "C17.R3", "C04.R2"],
         "explanation": "Decides: insert never overwrites (only on the miss edge of the same key) and maps Contradiction to Err; every successful re-execution passes through insert; exactly the indices whose tickets differ are reported and mapped to paths[i] of the refreshed blob; the earlier record cannot leave through an error. Not decided: whether a given history forces re-execution.",
     },
     "C18": {
-        "rules": ["C18.R1", "C01.R6", "C01.R9"],
+        "rules": ["C18.R1", "C18.R2", "C01.R6", "C01.R9"],
         "explanation": "Decides: the shortcut is taken only under exact equality of the file's own mtime with the remembered one; the table is refreshed whenever a command ran. Not decided: equality of paired runs over all histories.",
     },
+    "C19": {
+        "rules": ["C19.R1", "C19.R2", "C19.R3", "C19.R4", "C07.R2", "C15.R4"],
+        "explanation": "Decides: both endpoints decode every request name as a ticket before any file-system access and answer 404 otherwise; the only file-system entry points reachable from a request take a Ticket and build `<ruler dir>/<43 alphanumerics>`; 200 only on the success edges of lookup and read, every lookup failure is 404, bodies are the opened entry's bytes / the newline-joined hashes of the looked-up vector; request handlers' panic obligations. Not decided: that served bytes equal the requested content at runtime (C07); warp's routing.",
+    },
     "C20": {
-        "rules": ["C20.R2", "C20.R4", "C04.R5", "C02.R2"],
+        "rules": ["C20.R1", "C20.R2", "C20.R3", "C20.R4", "C04.R5", "C02.R2"],
         "explanation": "Decides: each status variant is constructed only where its cause happened (command executed / restore done / download done / effect-free path); status lines are printed only under Ok(Ok(_)) of join; one error per failed rule. Not decided: nothing structural beyond the listed rules.",
     },
 }
